@@ -8,14 +8,16 @@ PID = "C02"
 def run(tier):
     res = common.Result(PID, tier, "same workload as C01; whenever oRatio answers 'unsolvable' (solve()==false, unsolvable / inconsistent-problem error while reading) the verdict "
                         "is compared with ground truth: the planted assignment the program was built around (re-validated by the evaluator), z3 on the constraint-only "
-                        "fragment, or - for planning families - the planted plan (every generated planning problem is solvable by construction); non-trivial = the program terminated within the budget with a verdict")
+                        "fragment, or - for planning families - the planted plan (solvable by construction) resp. z3 on the scheduling semantics of the unplanted sx family; every second constraint-network program is also run in an equivalent formulation (statements reordered, identifiers renamed, commutative arguments reordered, tautologies added) and must get the same verdict; non-trivial = the program terminated within the budget with a verdict")
     res.assumptions = ["'no solution' is only ever concluded by z3 on the constraint fragment; elsewhere only 'has a solution' is known (planted / metamorphic)",
                        "non-terminating searches are inconclusive"]
     exes = c01.probes(tier)
-    total = 800 if tier == "quick" else 16000
+    total = 2400 if tier == "quick" else 16000
     per = 20 if tier == "quick" else 50
     common.pmap(c01.cons_work, [(exes, s + 700000, per, PID) for s in range(0, total, per)], res)
+    common.pmap(c01.cons_work, [(exes, s + 700000, per, PID, "tp") for s in range(0, total // 3, per)], res)
     from checks import plan
     plan.run_families(res, exes, tier, PID)
+    res.gate("equivalent formulations compared", res.counters.get("cons: equivalent formulations compared", 0) + res.counters.get("tp: equivalent formulations compared", 0) > 300)
     res.gate("unsolvable verdicts compared with ground truth", res.counters.get("cons: outcome unsolvable", 0) + res.counters.get("cons: outcome read-error", 0) > 10)
     return res.finish()
